@@ -66,7 +66,7 @@ if [ "$ID" = C16 ]; then
   export VERIF_RACEBIN="$W/racepass"
   # baselines of the free-running pass: every operation once, sequentially, GOMAXPROCS=1, own process
   for m in mixed qr rs same qrall color sharedsrc; do
-    GOMAXPROCS=1 timeout 300 "$W/racepass" -mode $m -write-baseline "$W/racebase.$m.json" > "$W/racebase.$m.log" 2>&1 &
+    ( s=$(date +%s); GOMAXPROCS=1 timeout 120 "$W/racepass" -mode $m -write-baseline "$W/racebase.$m.json" > "$W/racebase.$m.log" 2>&1 && echo $(( $(date +%s) - s )) > "$W/racebase.$m.time" ) &
   done
   wait
   export VERIF_RACEBASE="$W"
